@@ -410,6 +410,9 @@ def _judge_kmu(d, model, values, ke_sq, mu_sq, out, scales=None):
     c = _judge_counts(d['api'], ref, counts, counts_p)
     if c is not None:
         return 'count:' + c[0], c[1], ref
+    ok, why = modes.k_ties_consistent(model, ref, np.asarray(counts).sum(axis=1))
+    if not ok:
+        return 'count:tie-orbit-split', why, ref
     m = _judge_means(ref, counts, power, ref.sum_v, ref.sum_abs, 'mean value')
     if m:
         return 'mean', m, ref
